@@ -16,14 +16,32 @@ use oracle::Outcome;
 use serde_json::{Value, json};
 use vcheck::engine::{CaseResult, Check, Fail, pt};
 
-fn settle(check: &Check, o: Outcome) -> CaseResult {
+/// defects that hit every root / every group whatever the generator does
+const UNIVERSAL: [&str; 3] = [
+    "root-mohd-written-with-60-bytes-flags-in-wmoid-slot",
+    "group-legacy-parser-is-a-stub",
+    "group-mogp-header-written-with-36-bytes-instead-of-68",
+];
+
+fn bookkeeping(check: &Check, o: &Outcome) {
     check.count(&o.class, o.nt);
     for n in &o.notes {
         check.bump(n, 1);
     }
-    if o.fails.is_empty() {
-        check.bump("cases_without_any_failure", 1);
+    let kind = o.class.split(':').next().unwrap_or("?");
+    if kind == "root" {
+        let sw = if o.class.ends_with("tame1") { "roots_generated_with_exclusion_profile" } else { "roots_generated_without_exclusion_profile" };
+        check.bump(sw, 1);
     }
+    if o.fails.is_empty() {
+        check.bump(&format!("clean_cases:{kind}"), 1);
+    } else if o.fails.iter().all(|f| UNIVERSAL.contains(&f.signature.as_str())) {
+        check.bump(&format!("cases_with_only_the_unavoidable_known_failures:{kind}"), 1);
+    }
+}
+
+fn settle(check: &Check, o: Outcome) -> CaseResult {
+    bookkeeping(check, &o);
     let mut first_new: Option<Fail> = None;
     let mut first_repeat: Option<Fail> = None;
     for f in o.fails {
@@ -45,13 +63,7 @@ fn settle(check: &Check, o: Outcome) -> CaseResult {
 
 /// grid cases: report every failure of the case (known ones are counted, new ones get a replay)
 fn settle_grid(check: &Check, o: Outcome, case: Value) {
-    check.count(&o.class, o.nt);
-    for n in &o.notes {
-        check.bump(n, 1);
-    }
-    if o.fails.is_empty() {
-        check.bump("cases_without_any_failure", 1);
-    }
+    bookkeeping(check, &o);
     for f in &o.fails {
         check.fail(f, case.clone());
     }
@@ -178,7 +190,7 @@ fn main() {
     grid(&check);
 
     let max_v = (VERSIONS.len() - 1) as u8;
-    let n_root = check.tier.pick(6_000u32, 150_000);
+    let n_root = check.tier.pick(40_000u32, 1_200_000);
     pt::run(
         &check,
         "root",
@@ -192,7 +204,7 @@ fn main() {
             settle(&check, o)
         },
     );
-    let n_group = check.tier.pick(4_000u32, 100_000);
+    let n_group = check.tier.pick(25_000u32, 750_000);
     pt::run(
         &check,
         "group",
@@ -206,7 +218,7 @@ fn main() {
             settle(&check, o)
         },
     );
-    let n_conv = check.tier.pick(2_000u32, 50_000);
+    let n_conv = check.tier.pick(12_000u32, 360_000);
     pt::run(
         &check,
         "conv-root",
@@ -250,8 +262,15 @@ fn main() {
     if check.counter("root_second_write_identical") == 0 {
         check.inconclusive("no root case reached the byte-identical second write (clause 2 vacuous)");
     }
-    if check.counter("cases_without_any_failure") == 0 {
-        check.inconclusive("every case failed some clause (all-fail run is not a pass)");
+    for kind in ["root", "group"] {
+        if check.counter(&format!("clean_cases:{kind}")) + check.counter(&format!("cases_with_only_the_unavoidable_known_failures:{kind}")) == 0 {
+            check.inconclusive(&format!("every {kind} case failed an avoidable clause (the exclusion profile does not work; an all-fail run is not a pass)"));
+        }
+    }
+    for kind in ["conv-root", "conv-group"] {
+        if check.counter(&format!("clean_cases:{kind}")) == 0 {
+            check.inconclusive(&format!("no {kind} case passed"));
+        }
     }
     check.set_extra(
         "exclusion_switches",
